@@ -1,7 +1,55 @@
 """C02: parsing is total. spec: JetStruct.tla (push-down acceptor verdicts), JetLexemes.tla (lexeme-class sequences),
 JetLexProc.tla (lexer goroutine / parser protocol: no deadlock, no goroutine left behind)."""
-import json, os
+import json, os, re, glob
 from common import *
+
+_REJ_AT = re.compile(r'"TRACE-REJECTED-AT", (\d+)')
+
+def validate_protocol(rep, wd, tdir):
+    """code -> spec: every parse recorded by the lexer/parser hooks must be a behaviour of JetLexProc.
+    The trace spec sees only the shape of a parse (its event sequence), so each distinct shape is validated once."""
+    shapes = {}
+    total = 0
+    for fn in glob.glob(os.path.join(tdir, "lex.*.ndjson")):
+        with open(fn) as f:
+            for line in f:
+                try:
+                    d = json.loads(line)
+                except ValueError:
+                    continue        # a worker killed mid-write
+                total += 1
+                key = json.dumps([d["p"], d["closed"]])
+                if key not in shapes:
+                    shapes[key] = d
+    if total == 0:
+        raise Inconclusive("no lexer/parser protocol events were recorded (hooks missing?)")
+    lines = [json.dumps(shapes[k]) for k in sorted(shapes)]
+    tp = os.path.join(wd, "trace_lexproc.ndjson")
+    rejected = 0
+    while lines:
+        open(tp, "w").write("\n".join(lines) + "\n")
+        r = run_tlc(wd, "Trace_LexProc.tla", "Trace_LexProc.cfg", workers=1, heap="2g", timeout=1800, keep_vecs=False)
+        if r.error:
+            raise Inconclusive("Trace_LexProc: %s" % r.error)
+        if r.violated and r.violated != "postcondition":
+            raise Inconclusive("Trace_LexProc: %s violated while validating\n%s" % (r.violated, r.out[-1500:]))
+        m = _REJ_AT.search(r.out)
+        if m is None:
+            rep.add_tlc(r, "Trace_LexProc")
+            break
+        k = int(m.group(1)) - 1
+        d = json.loads(lines[k])
+        evs = " ".join(e["ev"] + (":%s" % e["typ"] if "typ" in e else "") for e in d["p"])
+        rep.violation({"kind": "protocol", "cfg": d["cfg"], "closed": d["closed"], "last": d["p"][-1]["ev"] if d["p"] else ""},
+                      {"vector": {"src": d["src"], "kind": "src"}, "detail": "parse of %r is not a behaviour of the lexer/parser protocol: "
+                       "parser events [%s], lexer closed=%s" % (d["src"], evs, d["closed"])})
+        rejected += 1
+        del lines[k]
+        if rejected >= 20:
+            break
+    rep.traces += total
+    rep.notes.append("Trace_LexProc: %d recorded parses (%d distinct event shapes) validated against JetLexProc, %d rejected"
+                     % (total, len(shapes), rejected))
 
 def run(rep, tier, seed):
     wd = spec_scratch()
@@ -25,6 +73,8 @@ def run(rep, tier, seed):
             ("JetLexemes.tla", "MC_Lexemes_quick.cfg", "lexeme", ["A"] if tier == "quick" else ["A", "C"])]
     if tier == "thorough":
         fams.append(("JetLexemes.tla", "MC_Lexemes_thorough.cfg", "lexeme3", ["A"]))
+    tdir = os.path.join(wd, "lextrace")
+    os.makedirs(tdir)
     for mod, cfg, fam, cfgs in fams:
         vec = os.path.join(wd, fam + ".ndjson")
         with open(vec, "w") as sink:
@@ -36,7 +86,8 @@ def run(rep, tier, seed):
                 if i == 7000:
                     rep.sample({"family": fam, "vector": json.loads(line)})
         for c in cfgs:
-            replay_vectors(rep, exe, "replay-C02", vec, extra_args=[c], timeout=6000, shards=8)
+            replay_vectors(rep, exe, "replay-C02", vec, extra_args=[c], timeout=6000, shards=8, env={"VERIF_LEXTRACE": tdir})
+    validate_protocol(rep, wd, tdir)
     rep.exhaustive = True
 
 def replay(path):
